@@ -134,7 +134,12 @@ func Slices(cols ...interface{}) Frame {
 		} else if cap := v.Cap(); cap < f.cap {
 			f.cap = cap
 		}
-		f.data[i] = newData(v)
+	}
+	// Bind each column over the frame's whole capacity, not just the
+	// length of the slice as given: Slice, Grow and Ensure extend a view
+	// up to Cap() without reallocating.
+	for i := range cols {
+		f.data[i] = newData(reflect.ValueOf(cols[i]).Slice(0, f.cap))
 	}
 	return f
 }
@@ -159,7 +164,10 @@ func Values(cols []reflect.Value) Frame {
 		} else if cap := v.Cap(); cap < f.cap {
 			f.cap = cap
 		}
-		f.data[i] = newData(v)
+	}
+	// As in Slices: columns are bound over the frame's whole capacity.
+	for i, v := range cols {
+		f.data[i] = newData(v.Slice(0, f.cap))
 	}
 	return f
 }
